@@ -105,3 +105,38 @@ Proof.
            (names_sepb_ok g nt H1) (single_attachb_ok g c H2) (links_typedb_ok g c H3)).
 Qed.
 Print Assumptions C03_hw_delivered_model.
+
+(* Part 5: table indexing.  The hardware reads RoutingTables[row][column] with row = the source's identity (its
+   enumeration value) and column = the destination identity, a '{...} literal listing the highest index first.
+   For every description under source routing: that entry is the word generated for exactly this ordered
+   pair, with the emitted route width (rows and columns are emitted sorted by identity, and identities are
+   exactly 0..N-1 by C07_model_holds) -- so, with Part 4, the flit that the source's interface builds from its
+   table row reaches the destination. *)
+From FV Require Import TableProofs.
+Theorem C03_table_indexing :
+  forall sp d g c ri n, build d = Ok g -> compile d g = Ok c -> gen_routing_info sp c = Ok ri -> emit c ri = Ok n ->
+    d_algo d = SRC ->
+    forall s0 t i r, In s0 (c_nis c) -> In t (c_nis c) -> gen_route sp c s0 t = Ok (i, r) ->
+      table_word n (cn_uid s0) (cn_uid t) = Some (emit_word (ri_route_bits ri) (i, r)).
+Proof. exact table_word_spec. Qed.
+Print Assumptions C03_table_indexing.
+
+Theorem C03_hw_end_to_end :
+  forall (d : desc) (g : graph) (c : compiled) (ri : rinfo) (n : netlist) (t : cni) (nt : net),
+    nt = Req \/ nt = Rsp ->
+    build d = Ok g -> compile d g = Ok c -> gen_routing_info sp_reference c = Ok ri -> emit c ri = Ok n ->
+    d_algo d = SRC -> In t (c_nis c) ->
+    names_sepb g nt = true -> single_attachb g c = true -> links_typedb g c = true ->
+    forall s0 id ps p, In s0 (c_nis c) -> gen_route sp_reference c s0 t = Ok (id, Some ps) ->
+      sp_reference g (cn_name s0) (cn_name t) = Some p -> snd (attach nt s0) = hd "" (tl p) ->
+      exists w, table_word n (cn_uid s0) (cn_uid t) = Some w /\ w_width w = ri_route_bits ri /\
+        let tr := send n nt (emit_ni d (ri_offset ri) s0) (hdr_of_word n (w_val w)) in
+        t_out tr = Delivered (cn_name t) (HRoute 0) /\ length (t_rts tr) = length ps /\ (2 + length ps = length p)%nat.
+Proof.
+  intros d g c ri n t nt Hnt Hb Hc Hri He Ha Ht H1 H2 H3 s0 id ps p Hs0 Hgr Hsp Hatt.
+  exists (emit_word (ri_route_bits ri) (id, Some ps)).
+  split; [exact (table_word_spec sp_reference d g c ri n Hb Hc Hri He Ha s0 t id (Some ps) Hs0 Ht Hgr)|].
+  split; [reflexivity|]. cbn [emit_word w_val snd].
+  exact (C03_hw_delivered_model d g c ri n t nt Hnt Hb Hc Hri He Ha Ht H1 H2 H3 s0 id ps p Hs0 Hgr Hsp Hatt).
+Qed.
+Print Assumptions C03_hw_end_to_end.
